@@ -5,7 +5,7 @@
 #   4. the quick check(s) (default: the property's own) report VIOLATION. Prints one summary line; logs in /tmp/seed/<ID>/eval<n>/.
 set -u
 ID=${1:?id}; N=${2:?n}; shift 2; CHECKS=${*:-$ID}
-SRC=/tmp/seed/$ID/out; LOG=/tmp/seed/$ID/eval$N; S=/tmp/gots-seed-$ID-$N
+ROOT=${SEEDROOT:-/tmp/seed}; SRC=$ROOT/$ID/out; LOG=$ROOT/$ID/eval$N; S=/tmp/gots-seed-$(basename $ROOT)-$ID-$N
 export GOFLAGS=-mod=mod GOPROXY=off GOSUMDB=off GOTOOLCHAIN=local GOCACHE=/verif/.gocache
 rm -rf $S $LOG; mkdir -p $LOG
 git -C /repo worktree add -q --detach $S HEAD || exit 2
